@@ -21,21 +21,30 @@ import (
 )
 
 // HasRecord goes over existing records in all sections and checks wether or not
-// it exists in the message payload. Names are compared case-insensitively: the
-// owner of an answer is spelled the way the client asked.
+// it exists in the message payload.
 func HasRecord(msg *dns.Msg, record string, qtype uint16) bool {
+	return hasRecord(msg, record, qtype, func(a, b string) bool { return a == b })
+}
+
+// hasRecordFold is HasRecord with names compared case-insensitively: the owner
+// of an answer is spelled the way the client asked, a target the way the data has it.
+func hasRecordFold(msg *dns.Msg, record string, qtype uint16) bool {
+	return hasRecord(msg, record, qtype, strings.EqualFold)
+}
+
+func hasRecord(msg *dns.Msg, record string, qtype uint16, same func(a, b string) bool) bool {
 	for _, a := range msg.Answer {
-		if a.Header().Rrtype == qtype && strings.EqualFold(a.Header().Name, record) {
+		if a.Header().Rrtype == qtype && same(a.Header().Name, record) {
 			return true
 		}
 	}
 	for _, a := range msg.Ns {
-		if a.Header().Rrtype == qtype && strings.EqualFold(a.Header().Name, record) {
+		if a.Header().Rrtype == qtype && same(a.Header().Name, record) {
 			return true
 		}
 	}
 	for _, a := range msg.Extra {
-		if a.Header().Rrtype == qtype && strings.EqualFold(a.Header().Name, record) {
+		if a.Header().Rrtype == qtype && same(a.Header().Name, record) {
 			return true
 		}
 	}
@@ -65,8 +74,8 @@ func AdditionalSectionForRecords(r Reader, a *dns.Msg, loc *Location, qclass uin
 		if name == "" {
 			continue
 		}
-		want4 := !HasRecord(a, name, dns.TypeA)
-		want6 := !HasRecord(a, name, dns.TypeAAAA)
+		want4 := !hasRecordFold(a, name, dns.TypeA)
+		want6 := !hasRecordFold(a, name, dns.TypeAAAA)
 
 		if want4 || want6 {
 			// database keys are lower-case; the target may be written in any case
